@@ -205,6 +205,21 @@ def run_threaded(case, seed, smart=False, duration=1.2, yield_q=0.02):
         except cloudsync.CloudException:
             return False
 
+    import collections
+    import logging
+    logbuf = collections.deque(maxlen=60000)
+
+    class _Cap(logging.Handler):
+        def emit(self, r):
+            try:
+                logbuf.append("%s|%s|%s" % (threading.current_thread().name, r.name.rsplit(".", 1)[-1], r.getMessage()[:260]))
+            except Exception:       # noqa
+                pass
+    cap = _Cap()
+    lg = logging.getLogger("cloudsync")
+    old_level = lg.level
+    lg.addHandler(cap)
+    lg.setLevel(logging.DEBUG)
     try:
         # roots first (one sync-loop iteration), then the base tree, synchronised deterministically before the threads start
         cs.smgr.run(until=lambda: True, sleep=0)
@@ -325,7 +340,15 @@ def run_threaded(case, seed, smart=False, duration=1.2, yield_q=0.02):
         for p in provs:
             EventManager._provider_guard.remove(p)      # pylint: disable=protected-access
         cs2.done()
+        # witness material for a wrong tree: what the engine logged about the first offending path
+        bad = [q for q in probs if str(q[0]).startswith("unexpected_") or q[0] == "diverged"]
+        if bad:
+            name = str(bad[0][1]).rsplit("/", 1)[-1]
+            stats["log_about_first_bad_path"] = [l for l in logbuf if name in l][-80:]
+            stats["rejected_ops"] = rejected[:5]
     finally:
+        lg.removeHandler(cap)
+        lg.setLevel(old_level)
         _tap["active"] = None
         sys.setswitchinterval(old_si)
         try:
